@@ -79,24 +79,53 @@ impl<T: Fl> Ap<T> for Euler<Deg<T>> {
         Euler { x: Deg(c[0]), y: Deg(c[1]), z: Deg(c[2]) }
     }
 }
-/// Basis2/Basis3 hold a private matrix: arbitrary components go in through serde
-fn basis2<T: Fl + serde::de::DeserializeOwned>(c: &[T]) -> Basis2<T> {
-    let js = format!(r#"{{"mat":{{"x":{{"x":{},"y":{}}},"y":{{"x":{},"y":{}}}}}}}"#, c[0], c[1], c[2], c[3]);
-    serde_json::from_str(&js).expect("Basis2 from JSON")
+/// Basis2/Basis3 hold a private matrix: arbitrary components go in through serde.  The serialized shape (the name of the
+/// private field, or no wrapper at all) is read off a serialized value: its numeric leaves, in x, y, z order, are
+/// overwritten.  A Basis that cannot be built this way is a limit of the harness (inconclusive), not a verdict on C18.
+fn refill<T: serde::Serialize>(v: &mut serde_json::Value, it: &mut std::slice::Iter<T>) -> Option<()> {
+    match v {
+        serde_json::Value::Number(_) => {
+            *v = serde_json::to_value(it.next()?).ok()?;
+            Some(())
+        }
+        serde_json::Value::Object(m) => {
+            let mut ks: Vec<String> = m.keys().cloned().collect();
+            ks.sort_by_key(|k| ("xyzw".find(k.as_str()).unwrap_or(9), k.clone()));
+            for k in ks {
+                refill(m.get_mut(&k)?, it)?;
+            }
+            Some(())
+        }
+        serde_json::Value::Array(a) => a.iter_mut().try_for_each(|x| refill(x, it)),
+        _ => None,
+    }
 }
-fn basis3<T: Fl + serde::de::DeserializeOwned>(c: &[T]) -> Basis3<T> {
-    let col = |i: usize| format!(r#"{{"x":{},"y":{},"z":{}}}"#, c[i * 3], c[i * 3 + 1], c[i * 3 + 2]);
-    let js = format!(r#"{{"mat":{{"x":{},"y":{},"z":{}}}}}"#, col(0), col(1), col(2));
-    serde_json::from_str(&js).expect("Basis3 from JSON")
+fn through_serde<B: serde::Serialize + serde::de::DeserializeOwned, T: serde::Serialize>(sample: &B, c: &[T]) -> B {
+    let built = (|| {
+        let mut v = serde_json::to_value(sample).ok()?;
+        let mut it = c.iter();
+        refill(&mut v, &mut it)?;
+        if it.next().is_some() {
+            return None;
+        }
+        serde_json::from_value(v).ok()
+    })();
+    built.unwrap_or_else(|| mc_core::ex::domain_exit("a Basis with arbitrary components cannot be built through serde"))
 }
-impl<T: Fl + serde::de::DeserializeOwned> Ap<T> for Basis2<T> {
+fn basis2<T: Fl + serde::Serialize + serde::de::DeserializeOwned>(c: &[T]) -> Basis2<T> {
+    through_serde(&<Basis2<T> as cgmath::One>::one(), c)
+}
+fn basis3<T: Fl + serde::Serialize + serde::de::DeserializeOwned>(c: &[T]) -> Basis3<T> {
+    through_serde(&<Basis3<T> as cgmath::One>::one(), c)
+}
+impl<T: Fl + serde::Serialize + serde::de::DeserializeOwned> Ap<T> for Basis2<T> {
     const NAME: &'static str = "Basis2";
     const N: usize = 4;
     fn build(c: &[T]) -> Self {
         basis2(c)
     }
 }
-impl<T: Fl + serde::de::DeserializeOwned> Ap<T> for Basis3<T> {
+impl<T: Fl + serde::Serialize + serde::de::DeserializeOwned> Ap<T> for Basis3<T> {
     const NAME: &'static str = "Basis3";
     const N: usize = 9;
     fn build(c: &[T]) -> Self {
@@ -110,7 +139,7 @@ impl<T: Fl> Ap<T> for Decomposed<Vector3<T>, Quaternion<T>> {
         Decomposed { scale: c[0], rot: mk_q([c[1], c[2], c[3], c[4]]), disp: mk_v3([c[5], c[6], c[7]]) }
     }
 }
-impl<T: Fl + serde::de::DeserializeOwned> Ap<T> for Decomposed<Vector2<T>, Basis2<T>> {
+impl<T: Fl + serde::Serialize + serde::de::DeserializeOwned> Ap<T> for Decomposed<Vector2<T>, Basis2<T>> {
     const NAME: &'static str = "Decomposed<Vector2,Basis2>";
     const N: usize = 7;
     fn build(c: &[T]) -> Self {
@@ -276,10 +305,19 @@ fn approx_special<T: Fl, C: Ap<T>>(rep: &mut Report) {
                 Setting::Rel(e, mr) => (0..n).all(|j| b[j].relative_eq(&a[j], e, mr)),
                 Setting::Ulps(e, u) => (0..n).all(|j| b[j].ulps_eq(&a[j], e, u)),
             };
+            // NaN, or the same infinity on both sides: "the scalar comparison of every pair" (false: inf - inf is NaN) and
+            // "reflexive" (true) contradict each other there, and the quantifier names finite deviations: not judged.
+            // An infinity against a finite component or against the other infinity is judged (a against b, not a against a).
+            let undecided = (0..n).any(|j| a[j].is_nan() || b[j].is_nan() || (a[j].is_infinite() && a[j] == b[j]));
+            if undecided {
+                ctx.branch("non-finite-not-judged");
+                return;
+            }
+            let inf_a = (0..n).any(|j| a[j].is_infinite());
             ctx.branch(if exp { "equal" } else { "unequal" });
             ctx.check(got == exp, &key(&format!("{}/{kind}/special", C::NAME)), || format!("{kind} = {got}, the conjunction of the scalar comparisons over all components is {exp}"));
             ctx.check(got_rev == exp_rev, &key(&format!("{}/{kind}/special", C::NAME)), || format!("{kind}(b,a) = {got_rev}, the conjunction of the scalar comparisons is {exp_rev}"));
-            ctx.check(refl == exp_refl, &key(&format!("{}/{kind}/special/reflexive", C::NAME)), || format!("{kind}(a,a) = {refl}, the scalar comparisons of each component with itself give {exp_refl}"));
+            ctx.check(inf_a || refl == exp_refl, &key(&format!("{}/{kind}/special/reflexive", C::NAME)), || format!("{kind}(a,a) = {refl}, the scalar comparisons of each component with itself give {exp_refl}"));
         },
     );
 }
@@ -454,7 +492,7 @@ fn matrix_predicates<T: Fl, M: MatN<T, N> + UlpsEq + AbsDiffEq<Epsilon = T>, con
         T::NAME,
         &format!("identity / diagonal / symmetric / generic / antisymmetric base with each single element perturbed by 0, 1, 4, +-5 ulps, 1e-3, +-epsilon-band ({} cases)", total),
         total,
-        Guard::states(50).distinct(20),
+        Guard::states(50).distinct(20).need("is_diagonal-judged", 50).need("is_symmetric-judged", 50),
         |i, ctx| {
             let (bi, rest) = (i / (N * N * np), i % (N * N * np));
             let (pos, pi) = (rest / np, rest % np);
@@ -477,13 +515,30 @@ fn matrix_predicates<T: Fl, M: MatN<T, N> + UlpsEq + AbsDiffEq<Epsilon = T>, con
             } else {
                 ctx.branch("is_identity-readings-differ-not-judged");
             }
-            ctx.check(m.is_diagonal() == exp_diag, &key(&format!("{}/is_diagonal", M::NAME)), || format!("is_diagonal() = {}, ulps comparison of every off-diagonal element with 0 gives {exp_diag}", m.is_diagonal()));
-            ctx.check(m.is_symmetric() == exp_sym, &key(&format!("{}/is_symmetric", M::NAME)), || format!("is_symmetric() = {}, ulps comparison of every element with its mirror image gives {exp_sym}", m.is_symmetric()));
+            // likewise "the ulps-comparison of every off-diagonal element with 0 / of every element with its mirror image":
+            // element by element under the scalar's defaults, or in one matrix comparison (with from_diagonal(diagonal()),
+            // with transpose()) under the matrix type's - judged where the two agree
+            let exp_diag_m = (0..N).all(|a| (0..N).all(|b| a == b || e[a][b].ulps_eq(&T::zero(), me, mu)));
+            let exp_sym_m = (0..N).all(|a| (0..N).all(|b| e[a][b].ulps_eq(&e[b][a], me, mu)));
+            if exp_diag == exp_diag_m {
+                ctx.branch("is_diagonal-judged");
+                ctx.check(m.is_diagonal() == exp_diag, &key(&format!("{}/is_diagonal", M::NAME)), || format!("is_diagonal() = {}, ulps comparison of every off-diagonal element with 0 gives {exp_diag}", m.is_diagonal()));
+            } else {
+                ctx.branch("is_diagonal-readings-differ-not-judged");
+            }
+            if exp_sym == exp_sym_m {
+                ctx.branch("is_symmetric-judged");
+                ctx.check(m.is_symmetric() == exp_sym, &key(&format!("{}/is_symmetric", M::NAME)), || format!("is_symmetric() = {}, ulps comparison of every element with its mirror image gives {exp_sym}", m.is_symmetric()));
+            } else {
+                ctx.branch("is_symmetric-readings-differ-not-judged");
+            }
             let det = m.determinant();
             let exp_inv = !ueq(det, T::zero());
             ctx.check(m.is_invertible() == exp_inv, &key(&format!("{}/is_invertible", M::NAME)), || format!("is_invertible() = {}, determinant() = {:?}", m.is_invertible(), det));
             // transposing does not change symmetry
-            ctx.check(m.transpose().is_symmetric() == exp_sym, &key(&format!("{}/is_symmetric/transpose", M::NAME)), || "is_symmetric() differs on the transpose".to_string());
+            if exp_sym == exp_sym_m {
+                ctx.check(m.transpose().is_symmetric() == exp_sym, &key(&format!("{}/is_symmetric/transpose", M::NAME)), || "is_symmetric() differs on the transpose".to_string());
+            }
         },
     );
     // is_invertible on singular / nearly singular / regular matrices
@@ -552,7 +607,7 @@ fn perpendicular<T: Fl>(rep: &mut Report) {
     });
 }
 
-fn all<T: Fl + serde::de::DeserializeOwned>(rep: &mut Report) {
+fn all<T: Fl + serde::Serialize + serde::de::DeserializeOwned>(rep: &mut Report) {
     approx_system::<T, Vector1<T>>(rep);
     approx_system::<T, Vector2<T>>(rep);
     approx_system::<T, Vector3<T>>(rep);
